@@ -70,8 +70,9 @@ CLAIMS["C04"] = dict(
           "carrying the transaction's root/size/limits while holding the lock, then settles and unlocks; Commit/Abort from any other state change nothing (idempotent); Abort "
           "never publishes; read-only transactions never touch the lock; Updates returns with the lock released on every normal exit, commits exactly when the callback returned "
           "nil and publishes nothing otherwise; its deferred function aborts and re-raises the same panic value when a panic is in flight (checked as a separate behaviour of the "
-          "closure), likewise View. Not decided: interleavings with concurrent readers (rests on C03 plus the single atomic store), the settled/read-only guards of the other "
-          "Txn methods (not yet under contract)."),
+          "closure), likewise View. Router.Handle/HandleRoute/Update/UpdateRoute/Delete are one locked read-modify-write: lock released on every exit, exactly one publication on success "
+          "and none on error, no load of the published tree outside the lock, the returned route is the transaction's. Txn.Handle/HandleRoute/Update/UpdateRoute/Delete panic only on a settled "
+          "transaction and return ErrReadOnlyTxn without touching the tree on a read-only one. Not decided: interleavings with concurrent readers (rests on C03 plus the single atomic store)."),
     design_ref="DESIGN.md section 4 C04, section 9",
     note=TRUSTED + " Assumed contracts: sync.Mutex Lock/Unlock and atomic.Pointer Load/Store over ghost state; the callback given to Updates/View neither commits nor aborts the transaction.")
 CLAIMS["C05"] = dict(
@@ -84,8 +85,11 @@ CLAIMS["C05"] = dict(
 CLAIMS["C06"] = dict(
     technique="contract-based deductive verification: ghost lock-operation counter on read-only paths, SMT",
     text=("Proved path-sensitively: txnWith(false), Router.Txn(false), Commit and Abort of a read-only transaction, View and its deferred function leave the ghost count of "
-          "operations on the writer mutex unchanged and never require or change its held state. Not yet decided: the call-graph effect clause 'no lock anywhere below ServeHTTP, "
-          "Lookup, Reverse, Route, Has, Len, Iter' (planned effect checker), progress under an adversarial scheduler."),
+          "operations on the writer mutex unchanged and never require or change its held state; the same postcondition is proved for ServeHTTP (any handler behaviour), Router.Route, Has, "
+          "Reverse, Lookup, Len and Iter, each of which loads the published tree exactly once (a call of an uncontracted function inside the module havocs the ghost lock state, so a helper "
+          "that takes the lock fails the clause). Effect clause `nolock`, decided by static call-graph closure inside the module: from ServeHTTP, Router.Lookup/Route/Has/Reverse/Len/Iter and "
+          "Txn.Has/Route/Reverse/Lookup/Len/Iter no sync.Mutex/RWMutex lock, Cond.Wait, WaitGroup.Wait, Once.Do, time.Sleep, channel operation, select or go statement is reachable "
+          "(handlers and other dynamic calls are not followed). Not decided: progress under an adversarial scheduler, sync.Pool internals."),
     design_ref="DESIGN.md section 4 C06, section 9",
     note=TRUSTED + " Assumed contracts for sync.Mutex over ghost state.")
 CLAIMS["C13"] = dict(
@@ -174,6 +178,18 @@ CLAIMS["C11"] = dict(
           "the WriteString calls by assert-at/ghost-set anchors), the handlers' bodies."),
     design_ref="DESIGN.md section 4 C11, section 9",
     note=TRUSTED + " Assumed: the contract of (*iTree).lookup, strings.Builder Len/WriteString over ghost length, method root keys are non-empty (precondition root-keys).")
+
+CLAIMS["C16"] = dict(
+    technique="contract-based: noalloc clauses (allocation pointer unchanged) on the dispatch path + effect clause decided by call-graph closure over the compiler's escape analysis + bounded stand-in (measured allocations)",
+    text=("Reduced claim, three parts. (1) Proved by SMT, path-sensitively: in ServeHTTP the allocation pointer of the verifier's memory model is unchanged between entry and the handler call "
+          "on the direct-match and ignored-trailing-slash paths (getRoot, context reset and recorder reset carry a checked `noalloc` clause; pool Get/Put and the tree lookup are assumed noalloc), so "
+          "e.g. a CleanPath or builder use moved onto those paths fails. (2) Effect clause `(*iTree).lookup : noalloc`: over the static call-graph closure of the lookup inside the module "
+          "(roots.lookup, lookupByPath, lookupByDomain, edge search, StripHostPort, skipped-node stack) the Go compiler's escape analysis (go build -gcflags=-m, run on every check) reports no value "
+          "escaping or moved to the heap, and the SSA has no string concatenation, string/slice conversion, map or channel creation; copyWithResize is excepted (grows only beyond capacity) "
+          "and append is assumed to stay within the pre-sized buffers. (3) NOT proved, bounded: measured allocations (testing.AllocsPerRun) are 0 for every served request over all route "
+          "sets of <=2 (quick) / <=3 (thorough) patterns of a 20-pattern pool, which is what detects a leaked pooled context or an under-sized buffer."),
+    design_ref="DESIGN.md section 4 C16, section 9, section 10",
+    note=TRUSTED + " Assumed: sync.Pool returns recycled objects in steady state; append within capacity; dynamic calls (handlers) are outside the router; the compiler's -m diagnostics are complete for heap escapes.")
 
 NOT_APPLICABLE = {
     "C01": "only edge search and method index are under contract so far; matcher mechanisms not yet (DESIGN.md section 4 C01)",
